@@ -205,10 +205,23 @@ def layout(kind, apple, min_slot=None):
     return out
 
 
+def apple_imm_extension(cpu, kind, vals, modes, lay):
+    """Apple arm64: "the caller of a function is responsible for signing or zero-extending any argument with fewer than 32 bits".  Examined for
+    IMMEDIATE arguments (the caller knows the parameter type and the value): the W view of the argument register must be the extension of the
+    value's low bits by the parameter's signedness.  -> list of (index, register, got, want)"""
+    bad = []
+    for i, ((size, sg, fl), where, v, mode) in enumerate(zip(params(kind), lay, vals, modes)):
+        if where[0] != "x" or size >= 4 or mode != 0: continue
+        w = v & ((1 << (8 * size)) - 1)
+        if sg and w >> (8 * size - 1): w -= 1 << (8 * size)
+        if (cpu.x[where[1]] & 0xFFFFFFFF) != (w & 0xFFFFFFFF): bad.append((i, "w%d" % where[1], cpu.x[where[1]] & 0xFFFFFFFF, w & 0xFFFFFFFF))
+    return bad
+
+
 def check(cpu, kind, apple, vals, lay):
     """-> list of (index, where, got, want) for parameters that do not hold the passed value's low `size` bytes.  (Apple's rule that the CALLER
-    extends sub-word register arguments to 32 bits is not examined: the harness passes 32-bit virtual registers / immediates whose upper bits
-    are the test's own garbage, AsmJit has no notion of converting them.)"""
+    extends sub-word register arguments to 32 bits is examined for immediates only, see apple_imm_extension: a 32-bit virtual register carries
+    the test's own garbage above the parameter width and AsmJit has no notion of converting it.)"""
     bad = []
     for i, ((size, sg, fl), where, v) in enumerate(zip(params(kind), lay, vals)):
         want = v & ((1 << (8 * size)) - 1)
